@@ -218,10 +218,13 @@ _NODE = object()
 
 
 def _required(ctx, index):
-    f = index.func("cdd.shared.ast_utils.param2argparse_param")
+    root = index.func("cdd.shared.ast_utils.param2argparse_param")
+    from ..core import RefGraph
+    from ..region import Region
+
     sites = {}
-    par = f.mod.parents
-    for n in iter_own(f.node):
+    par = root.mod.parents
+    for f, n in Region(index, RefGraph(index), root, allow_passed=True).nodes():
         if isinstance(n, ast.Call) and norm(n.func) == "keyword":
             arg = next((k.value.value for k in n.keywords if k.arg == "arg" and isinstance(k.value, ast.Constant)), None)
             if arg in ("required", "default"):
@@ -238,6 +241,7 @@ def _required(ctx, index):
                         conds.append((p.test, child in p.body))
                     child, p = p, par.get(p)
                 sites[arg] = (n, conds)
+    f = root
     ctx.need(set(sites) == {"required", "default"}, "cannot find the `required` / `default` keyword sites of param2argparse_param: {}".format(sorted(sites)))
 
     def atoms(conds):
